@@ -174,7 +174,32 @@ def impl():
         Dm22(fc)._send_request(l[0], 0x20, l[1], l[2])
         return fc.sent
 
+    class FakeCa2:
+        def __init__(s): s.sent = None; s.prio = None
+        def send_pgn(s, dp, pf, ps, prio, data): s.sent = list(data); s.prio = prio
+
+    def dm1_build(l):
+        fc = FakeCa2()
+        dm = Dm1.__new__(Dm1)
+        dm._pgn = 65226; dm._ca = fc; dm._lamp_status = {}; dm._dtc_dic_list = []; dm._data = []; dm._subscribers = []
+        dtcs = [{'spn': l[i], 'fmi': l[i + 1], 'oc': l[i + 2]} for i in range(4, len(l) - 2, 3)]
+        dm._send({'cb': lambda: ({'pl': l[0], 'awl': l[1], 'rsl': l[2], 'mil': l[3]}, dtcs)})
+        return [fc.prio] + fc.sent
+
+    def dm1_parse(l):
+        dm = Dm1.__new__(Dm1)
+        dm._pgn = 65226; dm._ca = None; dm._lamp_status = {'pl': -7}; dm._dtc_dic_list = None; dm._subscribers = []
+        dm._data = list(l)
+        dm._parse_dm1_receive_data()
+        if dm._lamp_status.get('pl') == -7:
+            return [0]
+        out = [1] + [dm._lamp_status[k] for k in ('pl', 'awl', 'rsl', 'mil')]
+        for d in dm._dtc_dic_list:
+            out += [d['spn'], d['fmi'], d['oc']]
+        return out
+
     return {
+        'item_dm1_build': dm1_build, 'item_dm1_parse': dm1_parse,
         'item_mid_of': mid_of, 'item_mid_raw': mid_raw, 'item_mid_parse': mid_parse, 'item_pgn': pgn,
         'item_pgn_from_mid': pgn_from_mid, 'item_name_value': name_value, 'item_name_bytes': name_bytes,
         'item_name_fields': name_fields, 'item_tp21_hash': tp21_hash,
@@ -213,7 +238,27 @@ def tuples(rng, widths, n, overflow=0):
     return out[:max(n, sum(len(w) for w in walks))]
 
 
+def gen_dm1_build(r, n):
+    out = []
+    for k in range(n // 4):
+        cnt = r.choice([1, 1, 2, 3, 5, 20])
+        l = [r.randint(0, 5) for _ in range(4)]
+        for _ in range(cnt):
+            l += [r.choice([0, 1, 0xFFFF, 0x10000, 0x7FFFF, r.getrandbits(19)]), r.choice([0, 31, r.getrandbits(5)]), r.choice([0, 127, r.getrandbits(7)])]
+        out.append(l)
+    return out
+
+
+def gen_dm1_parse(r, n):
+    out = []
+    for k in range(n // 4):
+        ln = r.choice([0, 3, 5, 6, 7, 8, 9, 10, 14, 18, 22, 42])
+        out.append([r.getrandbits(8) for _ in range(ln)])
+    return out
+
+
 GEN = {
+    'item_dm1_build': gen_dm1_build, 'item_dm1_parse': gen_dm1_parse,
     'item_mid_of': lambda r, n: tuples(r, [3, 18, 8], n) + tuples(r, [5, 20, 10], n // 4),
     'item_mid_raw': lambda r, n: tuples(r, [3, 18, 8], n),
     'item_mid_parse': lambda r, n: tuples(r, [29], n),
